@@ -72,6 +72,11 @@ func (c *Client) ConsumerOffsets(ctx context.Context, tg TopicAndGroup) (map[int
 	}
 
 	topic := metadata.Topics[0]
+	if topic.Error != nil {
+		// No partition is listed for a topic in error, an empty result
+		// would read as "nothing committed".
+		return nil, fmt.Errorf("failed to get topic metadata :%w", topic.Error)
+	}
 	partitions := make([]int, len(topic.Partitions))
 
 	for i := range topic.Partitions {
